@@ -109,9 +109,12 @@ pub(crate) fn set_len<T>(ptr: &mut NonNull<[T]>, new_len: usize) {
 #[inline(always)]
 pub(crate) unsafe fn result<T, E>(mut ptr: NonNull<Result<T, E>>) -> Result<NonNull<T>, NonNull<E>> {
     unsafe {
+        // The returned pointers keep the provenance of `ptr`; pointers derived from the
+        // references would only be valid for the `T` or `E` itself, but the `T` may be
+        // turned into an allocation that is later grown in place.
         match ptr.as_mut() {
-            Ok(ok) => Ok(ok.into()),
-            Err(err) => Err(err.into()),
+            Ok(ok) => Ok(ptr.cast::<T>().with_addr(NonNull::from(ok).addr())),
+            Err(err) => Err(ptr.cast::<E>().with_addr(NonNull::from(err).addr())),
         }
     }
 }
